@@ -70,6 +70,7 @@ async def _run(n0, cycles):
         for _ in range(c["after"]):
             reader.feed_data(G.enc(0x31, 0x45, 0x56, 0, 5, b""))       # a frame for somebody else: one more successful read
             await PI.settle(6)
+        writer.close_delay = c.get("slow_close", 0)      # the transport lost in this cycle takes that long to finish closing
         f = c["fault"]
         if f == "eof":
             reader.feed_eof()
@@ -146,7 +147,7 @@ class C11(Prop):
     rule = ("real Connection (scripted _open_connection) + AsyncProtocol + fake transports under the virtual-time loop: 0..2 failing initial "
             "opens, 1..4 loss/reconnect cycles, each with traffic (frames from the controller and/or an ecoSTER panel, creating 0..2 devices), "
             "a fault at the k-th read or write (end of stream, OSError, silence until the 10 s read timeout, failing write) and 0..3 failing "
-            "reconnect attempts, and 0..2 re-established transports whose very first write fails at once; observed per cycle: connected=False/True events per device, transport close calls, open attempts with their "
+            "reconnect attempts, lost transports that take 0 / 3 / 12 s to finish closing, and 0..2 re-established transports whose very first write fails at once; observed per cycle: connected=False/True events per device, transport close calls, open attempts with their "
             "virtual-time gaps, start-master frames on the new transport, live producer/consumer tasks.  Non-trivial = a device is known when "
             "the connection is lost; distinct by case content.")
     assumptions = ["sockets / serial ports and wait_for cancellation inside a real transport are not modelled: faults are injected at the "
@@ -160,7 +161,7 @@ class C11(Prop):
                 traffic = rng.choice([[], [0x45], [0x45, 0x45], [0x51], [0x45, 0x51]]) if i == 0 or rng.random() < 0.4 else rng.choice([[], [0x45]])
                 cycles.append({"traffic": traffic, "fault": rng.choice(FAULTS), "after": rng.randrange(0, 4), "fails": rng.randrange(0, 4),
                                "busy": i == 0 and rng.random() < 0.4,
-                               "instant": rng.choice([0, 0, 0, 1, 2])})
+                               "instant": rng.choice([0, 0, 0, 1, 2]), "slow_close": rng.choice([0, 0, 0, 3, 12])})
             cases.append({"kind": "random", "n0": rng.randrange(0, 3), "cycles": cycles})
         return cases
 
